@@ -211,6 +211,9 @@ func FloatSlice(ctx context.Context, args ...object.Object) object.Object {
 		return arg.Clone()
 	case *object.Int:
 		val := arg.Value()
+		if val < 0 {
+			return object.Errorf("value error: float_slice() argument must be >= 0 (%d given)", val)
+		}
 		return object.NewFloatSlice(make([]float64, val))
 	case *object.List:
 		items := arg.Value()
@@ -254,6 +257,9 @@ func ByteSlice(ctx context.Context, args ...object.Object) object.Object {
 		return object.NewByteSlice([]byte(arg.Value()))
 	case *object.Int:
 		val := arg.Value()
+		if val < 0 {
+			return object.Errorf("value error: byte_slice() argument must be >= 0 (%d given)", val)
+		}
 		return object.NewByteSlice(make([]byte, val))
 	case *object.List:
 		items := arg.Value()
@@ -296,6 +302,9 @@ func Buffer(ctx context.Context, args ...object.Object) object.Object {
 	case *object.Int:
 		// Special case: treat the value as the size to allocate
 		val := arg.Value()
+		if val < 0 {
+			return object.Errorf("value error: buffer() argument must be >= 0 (%d given)", val)
+		}
 		return object.NewBufferFromBytes(make([]byte, val))
 	case io.Reader:
 		bytes, err := io.ReadAll(arg)
@@ -848,7 +857,11 @@ func Chan(ctx context.Context, args ...object.Object) object.Object {
 	if len(args) == 1 {
 		switch arg := args[0].(type) {
 		case *object.Int:
-			size = int(arg.Value())
+			val := arg.Value()
+			if val < 0 {
+				return object.Errorf("value error: chan() argument must be >= 0 (%d given)", val)
+			}
+			size = int(val)
 		default:
 			return object.TypeErrorf("type error: chan() expected an int (%s given)", arg.Type())
 		}
